@@ -71,6 +71,8 @@ func buildECons(c *ECons) schema.Constraint {
 		return schema.AnyExpression{OfType: anyType(c.T)}
 	case "ref":
 		return schema.Reference{OfType: cty.DynamicPseudoType}
+	case "refdecl":
+		return schema.Reference{Address: &schema.ReferenceAddrSchema{ScopeId: "prov"}}
 	case "lit":
 		return schema.LiteralType{Type: anyType(c.T)}
 	case "litval":
